@@ -201,12 +201,17 @@ func (e *EDNS) ServeDNS(ctx context.Context, ch *middleware.Chain) {
 	// recovery swallows still unwraps this chain before it
 	// returns to the pool — otherwise the next request picks
 	// up a stale EDNS wrapper.
+	completed := false
 	defer func() {
 		ch.Writer = w
+		if !completed {
+			restoreClientView(req, noedns)
+		}
 		*rw = ResponseWriter{}
 		responseWriterPool.Put(rw)
 	}()
 	ch.Next(ctx)
+	completed = true
 }
 
 // serveWire is the wire branch: every client-facing fact (advertised
@@ -263,8 +268,12 @@ func (e *EDNS) serveWire(ctx context.Context, ch *middleware.Chain) {
 	req.RecordEDNSNormalization(e.ecsPolicy, clientAddr)
 
 	ch.Writer = rw
+	completed := false
 	defer func() {
 		ch.Writer = w
+		if !completed && !req.Undecoded() {
+			restoreClientView(req.Msg(), noedns)
+		}
 		pooled := rw.pooled
 		*rw = ResponseWriter{}
 		if pooled {
@@ -272,6 +281,33 @@ func (e *EDNS) serveWire(ctx context.Context, ch *middleware.Chain) {
 		}
 	}()
 	ch.Next(ctx)
+	completed = true
+}
+
+// restoreClientView runs when a downstream panic unwinds past edns. The
+// recovery middleware answers it through the base writer with the request's
+// own additional section — past every shaping this package applies to a
+// reply — and by then SetEdns0 has rewritten that section for the upstream
+// query: an OPT appended for a client that sent none, the clamped client
+// subnet put back on. Undo the two things such a reply would show the
+// client; the normal return path is untouched.
+func restoreClientView(req *dns.Msg, noedns bool) {
+	if req == nil {
+		return
+	}
+	if noedns {
+		kept := req.Extra[:0]
+		for _, rr := range req.Extra {
+			if rr.Header().Rrtype != dns.TypeOPT {
+				kept = append(kept, rr)
+			}
+		}
+		req.Extra = kept
+		return
+	}
+	if opt := req.IsEdns0(); opt != nil {
+		opt.Option = stripECS(opt.Option)
+	}
 }
 
 func hasClientKeepalive(req *dns.Msg) bool {
